@@ -8,6 +8,8 @@ package state
 import (
 	"math/big"
 
+	"github.com/youchainhq/go-youchain/params"
+
 	"github.com/youchainhq/go-youchain/common"
 	"github.com/youchainhq/go-youchain/zzverif"
 )
@@ -126,5 +128,81 @@ func zzH_C09_committed() {
 	liveB, comB := run(false)
 	zzverif.Assert(zzC10rSame(liveA, liveB, false), "a reverted frame leaves no trace in the live state")
 	zzverif.Assert(zzC10rSame(comA, comB, false), "a reverted frame leaves no trace in the committed state")
+	zzverif.Reach("end")
+}
+
+// ---- the same for the validator side ----
+
+func zzC09cValOp(s *StateDB, kind, who int, amt *big.Int) {
+	addr := zzValAddr(who)
+	switch kind {
+	case 0: // (re-)create
+		if s.GetValidatorByMainAddr(addr) == nil {
+			tok := new(big.Int).Mul(params.StakeUint, big.NewInt(2))
+			s.CreateValidator("n", zzAddr(who), zzAddr(who), params.RoleHouse, zzPub(who), zzPub(who), tok, params.YOUToStake(tok), 1, 0, 0, params.ValidatorOnline)
+		}
+	case 1: // remove
+		if s.GetValidatorByMainAddr(addr) != nil {
+			s.RemoveValidator(addr)
+		}
+	case 2: // update
+		if cur := s.GetValidatorByMainAddr(addr); cur != nil {
+			nv := cur.PartialCopy()
+			nv.SelfToken.Add(nv.SelfToken, amt)
+			nv.Token.Add(nv.Token, amt)
+			nv.Stake = params.YOUToStake(nv.Token)
+			nv.SelfStake = params.YOUToStake(nv.SelfToken)
+			s.UpdateValidator(nv, cur)
+		}
+	}
+}
+
+// zzH_C09_committed_val: validators 1 and 2 are in the committed validator trie; an earlier
+// transaction of the block creates / removes / updates one of validators 1 and 3, then a frame
+// does the same kind of thing and is reverted: live and committed validator-side content equal
+// the twin run without the frame.
+func zzH_C09_committed_val() {
+	k1, w1 := zzverif.Choose("earlierTx.op", 3), []int{1, 3}[zzverif.Choose("earlierTx.validator", 2)]
+	endTx := zzverif.Bool("earlierTx.finalised")
+	k2, w2 := zzverif.Choose("frame.op", 3), []int{1, 3}[zzverif.Choose("frame.validator", 2)]
+	a1, a2 := zzverif.Big("earlierTx.amount", 64), zzverif.Big("frame.amount", 64)
+	run := func(withFrame bool) (zzC09VObs, zzC09VObs) {
+		s := zzC10rNew()
+		s.SetBalance(zzAddr(7), big.NewInt(1000))
+		for i := 1; i <= 2; i++ {
+			tok := new(big.Int).Mul(params.StakeUint, big.NewInt(int64(i)))
+			s.CreateValidator("v", zzAddr(i), zzAddr(i), params.ValidatorRole(i), zzPub(i), zzPub(i), tok, params.YOUToStake(tok), 1, 0, 0, params.ValidatorOnline)
+		}
+		root, valRoot, stakingRoot, err := s.Commit(true)
+		if err != nil {
+			panic(err)
+		}
+		s, err = New(root, valRoot, stakingRoot, zzC10rDB)
+		if err != nil {
+			panic(err)
+		}
+		zzC09cValOp(s, k1, w1, a1)
+		if endTx {
+			s.Finalise(true)
+		}
+		if withFrame {
+			id := s.Snapshot()
+			zzC09cValOp(s, k2, w2, a2)
+			s.RevertToSnapshot(id)
+		}
+		live := zzC09ObserveVal(s, zzAddr(7))
+		root, valRoot, stakingRoot, err = s.Commit(true)
+		zzverif.Assert(err == nil && s.Error() == nil, "commit succeeds")
+		r, err := New(root, valRoot, stakingRoot, zzC10rDB)
+		if err != nil {
+			zzverif.Assume(false)
+		}
+		return live, zzC09ObserveVal(r, zzAddr(7))
+	}
+	liveA, comA := run(true)
+	zzverif.Reach("frame-run")
+	liveB, comB := run(false)
+	zzverif.Assert(zzC09SameVal(liveA, liveB), "a reverted frame leaves no trace in the live validator state")
+	zzverif.Assert(zzC09SameVal(comA, comB), "a reverted frame leaves no trace in the committed validator state")
 	zzverif.Reach("end")
 }
